@@ -70,7 +70,7 @@ def run_case(case, work, rec):
             # history: a damaged plotfile sat at this very path and was reported bad (fail and nofail
             # mode) before the well-formed one was written there - the verdict must not be remembered
             lv = m.nlevels - 1
-            victim = os.path.join(path, f"Level_{lv}", sorted(set(m.files[lv]))[0])
+            victim = os.path.join(path, m.level_dirs[lv], sorted(set(m.files[lv]))[0])
             with open(victim, "r+b") as f:
                 f.truncate(max(0, os.path.getsize(victim) - 9))
             for nofail in (True, False):
